@@ -377,6 +377,27 @@ fn p_foreign_opt() {
     kani::cover!(true, "p_foreign_opt reaches end");
 }
 
+static OTHER_HANDLE: u64 = 78;
+unsafe extern "C" fn rec_clone_other(p: Option<&'static u64>) -> Option<&'static u64> {
+    REC_CLONE += 1;
+    REC_ARG = p.map(|r| r as *const u64 as usize).unwrap_or(0);
+    Some(&OTHER_HANDLE)
+}
+#[kani::proof]
+fn p_foreign_clone_result_used() {
+    // a creating module's clone function may hand back a DIFFERENT handle: the clone must carry it
+    let c = CArcSome { instance: &NOT_AN_ARC, clone_fn: rec_clone_other, drop_fn: Some(rec_drop) };
+    let c2 = c.clone();
+    assert!(core::ptr::eq(c2.instance, &OTHER_HANDLE) && *c2 == 78, "C10 the clone holds the handle returned by the stored clone function");
+    assert!(core::ptr::eq(c.instance, &NOT_AN_ARC), "C10 the source keeps its own handle");
+    drop(c2);
+    unsafe { assert!(REC_DROP == 1 && REC_ARG == &OTHER_HANDLE as *const u64 as usize, "C10 dropping the clone releases the handle it was given") };
+    let o = CArc { instance: Some(&NOT_AN_ARC), clone_fn: Some(rec_clone_other), drop_fn: Some(rec_drop) };
+    let o2 = o.clone();
+    assert!(core::ptr::eq(*o2.as_ref().as_ref().unwrap(), &OTHER_HANDLE), "C10 CArc clone holds the returned handle");
+    drop(o2); drop(o); drop(c);
+    kani::cover!(true, "end");
+}
 //@ prefix=p_empty kind=property clause=empty CArc: clones to empty, drops as a no-op, as_ref is None, transposes to None
 #[kani::proof]
 fn p_empty() {
